@@ -1,7 +1,6 @@
 import Fdo.Rv
 import Fdo.RvSpec
 import Fdo.Cbor.Proofs
-import Fdo.RvRepaired
 /-
 Helper lemmas for C20 (property theorems are in Props/C20.lean).
 -/
@@ -98,10 +97,10 @@ theorem any_perm {l l' : List RvInstr} (f : RvInstr → Bool) (h : l.Perm l') : 
   · rintro ⟨x, hx, hf⟩; exact ⟨x, h.mem_iff.mpr hx, hf⟩
 
 
-/-! ## The repaired loop equals the reference interpreter -/
+/-! ## The loop equals the reference interpreter -/
 
 /-- One loop iteration of `parseDirective` that is not a `return nil`. -/
-def pureStep (dev : Bool) (d : Directive) (i : RvInstr) : Directive := (Repaired.dirStep dev d i).getD d
+def pureStep (dev : Bool) (d : Directive) (i : RvInstr) : Directive := (dirStep dev d i).getD d
 
 section fields
 variable (m : Nat) (f r : Bytes) (d : Directive)
@@ -114,15 +113,15 @@ variable (m : Nat) (f r : Bytes) (d : Directive)
 @[simp] theorem applyMedium_delay : (applyMedium m d).delay = d.delay := by unfold applyMedium; (repeat' split) <;> rfl
 @[simp] theorem applyMedium_svCert : (applyMedium m d).svCert = d.svCert := by unfold applyMedium; (repeat' split) <;> rfl
 @[simp] theorem applyMedium_clCert : (applyMedium m d).clCert = d.clCert := by unfold applyMedium; (repeat' split) <;> rfl
-@[simp] theorem applyExt_urls : (Rv.applyExt f r d).urls = d.urls := by unfold Rv.applyExt; (repeat' split) <;> rfl
-@[simp] theorem applyExt_bypass : (Rv.applyExt f r d).bypass = d.bypass := by unfold Rv.applyExt; (repeat' split) <;> rfl
-@[simp] theorem applyExt_eth : (Rv.applyExt f r d).eth = d.eth := by unfold Rv.applyExt; (repeat' split) <;> rfl
-@[simp] theorem applyExt_wlan : (Rv.applyExt f r d).wlan = d.wlan := by unfold Rv.applyExt; (repeat' split) <;> rfl
-@[simp] theorem applyExt_ssid : (Rv.applyExt f r d).ssid = d.ssid := by unfold Rv.applyExt; (repeat' split) <;> rfl
-@[simp] theorem applyExt_pass : (Rv.applyExt f r d).pass = d.pass := by unfold Rv.applyExt; (repeat' split) <;> rfl
-@[simp] theorem applyExt_delay : (Rv.applyExt f r d).delay = d.delay := by unfold Rv.applyExt; (repeat' split) <;> rfl
-@[simp] theorem applyExt_svCert : (Rv.applyExt f r d).svCert = d.svCert := by unfold Rv.applyExt; (repeat' split) <;> rfl
-@[simp] theorem applyExt_clCert : (Rv.applyExt f r d).clCert = d.clCert := by unfold Rv.applyExt; (repeat' split) <;> rfl
+@[simp] theorem applyExt_urls : (applyExt f r d).urls = d.urls := by unfold applyExt; (repeat' split) <;> rfl
+@[simp] theorem applyExt_bypass : (applyExt f r d).bypass = d.bypass := by unfold applyExt; (repeat' split) <;> rfl
+@[simp] theorem applyExt_eth : (applyExt f r d).eth = d.eth := by unfold applyExt; (repeat' split) <;> rfl
+@[simp] theorem applyExt_wlan : (applyExt f r d).wlan = d.wlan := by unfold applyExt; (repeat' split) <;> rfl
+@[simp] theorem applyExt_ssid : (applyExt f r d).ssid = d.ssid := by unfold applyExt; (repeat' split) <;> rfl
+@[simp] theorem applyExt_pass : (applyExt f r d).pass = d.pass := by unfold applyExt; (repeat' split) <;> rfl
+@[simp] theorem applyExt_delay : (applyExt f r d).delay = d.delay := by unfold applyExt; (repeat' split) <;> rfl
+@[simp] theorem applyExt_svCert : (applyExt f r d).svCert = d.svCert := by unfold applyExt; (repeat' split) <;> rfl
+@[simp] theorem applyExt_clCert : (applyExt f r d).clCert = d.clCert := by unfold applyExt; (repeat' split) <;> rfl
 
 theorem applyMedium_eth : (applyMedium m d).eth = orElse (mediumFor .eth m) d.eth := by
   unfold applyMedium mediumFor mediumTable
@@ -137,53 +136,53 @@ end fields
 macro "rv_cases" : tactic =>
   `(tactic| ((repeat' split) <;>
     simp_all [rvDevOnly, rvOwnerOnly, rvIPAddress, rvDevPort, rvOwnerPort, rvDns, rvBypass, rvMedium, rvWifiSsid, rvWifiPw,
-      rvExtRV, rvDelaysec, rvSvCertHash, rvClCertHash, rvProtocol, Repaired.applyExt, orElse]))
+      rvExtRV, rvDelaysec, rvSvCertHash, rvClCertHash, rvProtocol, orElse]))
 
 theorem step_urls (dev : Bool) (d : Directive) (i : RvInstr) : (pureStep dev d i).urls = d.urls := by
-  simp only [pureStep, Repaired.dirStep]
+  simp only [pureStep, dirStep]
   rv_cases
 
 theorem step_bypass (dev : Bool) (d : Directive) (i : RvInstr) :
     (pureStep dev d i).bypass = (d.bypass || decide (i.var = 14)) := by
-  simp only [pureStep, Repaired.dirStep]
+  simp only [pureStep, dirStep]
   rv_cases
 
 theorem step_eth (dev : Bool) (d : Directive) (i : RvInstr) :
     (pureStep dev d i).eth = orElse (pEth i) d.eth := by
-  simp only [pureStep, Repaired.dirStep, pEth, onVar, readU8]
+  simp only [pureStep, dirStep, pEth, onVar, readU8]
   rv_cases
   all_goals simp [applyMedium_eth, orElse]
 
 theorem step_wlan (dev : Bool) (d : Directive) (i : RvInstr) :
     (pureStep dev d i).wlan = orElse (pWlan i) d.wlan := by
-  simp only [pureStep, Repaired.dirStep, pWlan, onVar, readU8]
+  simp only [pureStep, dirStep, pWlan, onVar, readU8]
   rv_cases
   all_goals simp [applyMedium_wlan, orElse]
 
 theorem step_ssid (dev : Bool) (d : Directive) (i : RvInstr) :
     (pureStep dev d i).ssid = (pSsid i).getD d.ssid := by
-  simp only [pureStep, Repaired.dirStep, pSsid, onVar, readText]
+  simp only [pureStep, dirStep, pSsid, onVar, readText]
   rv_cases
 
 theorem step_pass (dev : Bool) (d : Directive) (i : RvInstr) :
     (pureStep dev d i).pass = (pPass i).getD d.pass := by
-  simp only [pureStep, Repaired.dirStep, pPass, onVar, readText]
+  simp only [pureStep, dirStep, pPass, onVar, readText]
   rv_cases
 
 theorem step_delay (dev : Bool) (d : Directive) (i : RvInstr) :
     (pureStep dev d i).delay = ((pDelay i).map nsOfSecs).getD d.delay := by
-  simp only [pureStep, Repaired.dirStep, pDelay, onVar, readU32]
+  simp only [pureStep, dirStep, pDelay, onVar, readU32]
   rv_cases
   all_goals rfl
 
 theorem step_svCert (dev : Bool) (d : Directive) (i : RvInstr) :
     (pureStep dev d i).svCert = orElse (pSv i) d.svCert := by
-  simp only [pureStep, Repaired.dirStep, pSv, onVar, readHash]
+  simp only [pureStep, dirStep, pSv, onVar, readHash]
   rv_cases
 
 theorem step_clCert (dev : Bool) (d : Directive) (i : RvInstr) :
     (pureStep dev d i).clCert = orElse (pCl i) d.clCert := by
-  simp only [pureStep, Repaired.dirStep, pCl, onVar, readHash]
+  simp only [pureStep, dirStep, pCl, onVar, readHash]
   rv_cases
 
 /-! ### external RV -/
@@ -220,9 +219,9 @@ theorem decStr_exact (f d : Nat) (p : Bytes) (x : Item) (s r' : Bytes)
 
 /-- What `ArrayShift` returns as first element is non-empty, and decoding it as a string either
 stores nothing or succeeds without trailing bytes. -/
-theorem arrayShift_first (v first rest : Bytes) (h : Repaired.arrayShift v = .ok first rest) :
+theorem arrayShift_first (v first rest : Bytes) (h : arrayShift v = .ok first rest) :
     first ≠ [] ∧ ∀ s, (unmarshalStr first).stored = some s → (unmarshalStr first).ok = true := by
-  unfold Repaired.arrayShift at h
+  unfold arrayShift at h
   cases hd : decHead v with
   | none => simp [hd] at h
   | some q =>
@@ -257,75 +256,62 @@ theorem arrayShift_first (v first rest : Bytes) (h : Repaired.arrayShift v = .ok
             subst this
             simp [finish]
 
-theorem arrayShift_eq (v : Bytes) (h : v ≠ []) : Rv.arrayShift v = Repaired.arrayShift v := by
-  unfold Rv.arrayShift Repaired.arrayShift
-  cases v with
-  | nil => exact absurd rfl h
-  | cons b r => rfl
-
-theorem arrayShift_nil : Repaired.arrayShift [] = .fail := by
-  simp [Repaired.arrayShift, decHead]
-
 /-- The `case RVExtRV` body in terms of the specification's reader. -/
 theorem ext_step (v : Bytes) (d : Directive) :
-    (match Repaired.arrayShift v with
-      | .ok first rest => Repaired.applyExt first rest d
-      | _ => d) =
+    (match arrayShift v with
+      | .ok first rest => applyExt first rest d
+      | .fail => d) =
     (match readExt v with
       | some (m, a) => { d with extMech := m, extArgs := a }
       | none => d) := by
   unfold readExt
-  by_cases hv : v = []
-  · subst hv; simp [arrayShift_nil]
-  · simp only [hv, if_false, arrayShift_eq v hv]
-    cases hs : Repaired.arrayShift v with
-    | panic => rfl
-    | fail => rfl
-    | ok first rest =>
-      obtain ⟨hne, hok⟩ := arrayShift_first v first rest hs
-      simp only [Repaired.applyExt, Rv.applyExt, readText, Dec.val]
-      have he : first.isEmpty = false := by cases first <;> simp_all
-      simp only [he]
-      cases hu : unmarshalStr first with
-      | mk st ok =>
-        cases st with
-        | none => cases ok <;> simp
-        | some s =>
-          have := hok s (by simp [hu])
-          simp [hu] at this
-          subst this
-          simp
+  cases hs : arrayShift v with
+  | fail => rfl
+  | ok first rest =>
+    obtain ⟨hne, hok⟩ := arrayShift_first v first rest hs
+    simp only [applyExt, readText, Dec.val]
+    have he : first.isEmpty = false := by cases first <;> simp_all
+    simp only [he]
+    cases hu : unmarshalStr first with
+    | mk st ok =>
+      cases st with
+      | none => cases ok <;> simp
+      | some s =>
+        have := hok s (by simp [hu])
+        simp [hu] at this
+        subst this
+        simp
 
 theorem step_extMech (dev : Bool) (d : Directive) (i : RvInstr) :
     (pureStep dev d i).extMech = ((pExt i).map (·.1)).getD d.extMech := by
   by_cases h : i.var = 15
-  · have : pureStep dev d i = (match Repaired.arrayShift i.value with
-        | .ok first rest => Repaired.applyExt first rest d
-        | _ => d) := by
-      simp only [pureStep, Repaired.dirStep]
+  · have : pureStep dev d i = (match arrayShift i.value with
+        | .ok first rest => applyExt first rest d
+        | .fail => d) := by
+      simp only [pureStep, dirStep]
       rv_cases
     rw [this, ext_step]
     simp only [pExt, onVar, h, if_true]
     cases readExt i.value with
     | none => rfl
     | some ma => rfl
-  · simp only [pureStep, Repaired.dirStep, pExt, onVar]
+  · simp only [pureStep, dirStep, pExt, onVar]
     rv_cases
 
 theorem step_extArgs (dev : Bool) (d : Directive) (i : RvInstr) :
     (pureStep dev d i).extArgs = ((pExt i).map (·.2)).getD d.extArgs := by
   by_cases h : i.var = 15
-  · have : pureStep dev d i = (match Repaired.arrayShift i.value with
-        | .ok first rest => Repaired.applyExt first rest d
-        | _ => d) := by
-      simp only [pureStep, Repaired.dirStep]
+  · have : pureStep dev d i = (match arrayShift i.value with
+        | .ok first rest => applyExt first rest d
+        | .fail => d) := by
+      simp only [pureStep, dirStep]
       rv_cases
     rw [this, ext_step]
     simp only [pExt, onVar, h, if_true]
     cases readExt i.value with
     | none => rfl
     | some ma => rfl
-  · simp only [pureStep, Repaired.dirStep, pExt, onVar]
+  · simp only [pureStep, dirStep, pExt, onVar]
     rv_cases
 
 /-! ### the whole directive -/
@@ -385,20 +371,20 @@ theorem foldl_pureStep (dev : Bool) (d : Directive) (is : List RvInstr) :
     lastValid_map, lastValid_map, lastValid_map]
 
 theorem dirStep_none_iff (dev : Bool) (d : Directive) (i : RvInstr) :
-    Repaired.dirStep dev d i = none ↔ i.var = (roleRow dev).otherOnlyVar := by
-  simp only [Repaired.dirStep, roleRow]
+    dirStep dev d i = none ↔ i.var = (roleRow dev).otherOnlyVar := by
+  simp only [dirStep, roleRow]
   cases dev <;> rv_cases
 
 /-- The loop of `parseDirective`: `nil` iff an other-role marker occurs, else the folded body. -/
 theorem dirLoop_eq (dev : Bool) (d : Directive) (is : List RvInstr) :
-    Repaired.dirLoop dev d is =
+    dirLoop dev d is =
       if is.any (fun i => i.var = (roleRow dev).otherOnlyVar) then .dropped
       else .ok (is.foldl (pureStep dev) d) := by
   induction is generalizing d with
-  | nil => simp [Repaired.dirLoop]
+  | nil => simp [dirLoop]
   | cons i is ih =>
-    simp only [Repaired.dirLoop, List.any_cons, List.foldl_cons]
-    cases hs : Repaired.dirStep dev d i with
+    simp only [dirLoop, List.any_cons, List.foldl_cons]
+    cases hs : dirStep dev d i with
     | none =>
       have := (dirStep_none_iff dev d i).mp hs
       simp [this]
@@ -410,75 +396,75 @@ theorem dirLoop_eq (dev : Bool) (d : Directive) (is : List RvInstr) :
 
 /-! ### URLs -/
 
-theorem applyProto_scheme (p : Nat) (a : Repaired.UrlAcc) :
-    (Repaired.applyProto p a).scheme = (schemeOfProto p).getD a.scheme := by
-  unfold Repaired.applyProto schemeOfProto protoTable
+theorem applyProto_scheme (p : Nat) (a : UrlAcc) :
+    (applyProto p a).scheme = (schemeOfProto p).getD a.scheme := by
+  unfold applyProto schemeOfProto protoTable
   simp only [List.lookup]
   (repeat' split) <;> simp_all [rvProtHTTP, rvProtHTTPS, rvProtTCP, rvProtTLS, rvProtCoapTCP, rvProtCoapUDP]
 
-theorem applyProto_other (p : Nat) (a : Repaired.UrlAcc) :
-    (Repaired.applyProto p a).port = a.port ∧ (Repaired.applyProto p a).dns = a.dns ∧ (Repaired.applyProto p a).ip = a.ip := by
-  unfold Repaired.applyProto
+theorem applyProto_other (p : Nat) (a : UrlAcc) :
+    (applyProto p a).port = a.port ∧ (applyProto p a).dns = a.dns ∧ (applyProto p a).ip = a.ip := by
+  unfold applyProto
   (repeat' split) <;> simp
 
-theorem applyProto_dflt (p : Nat) (a : Repaired.UrlAcc) (h : a.dflt = defaultPort a.scheme) :
-    (Repaired.applyProto p a).dflt = defaultPort (Repaired.applyProto p a).scheme := by
-  unfold Repaired.applyProto
+theorem applyProto_dflt (p : Nat) (a : UrlAcc) (h : a.dflt = defaultPort a.scheme) :
+    (applyProto p a).dflt = defaultPort (applyProto p a).scheme := by
+  unfold applyProto
   (repeat' split) <;> simp_all [defaultPort]
 
-theorem ustep_scheme (dev : Bool) (a : Repaired.UrlAcc) (i : RvInstr) :
-    (Repaired.urlStep dev a i).scheme = (pScheme i).getD a.scheme := by
-  simp only [Repaired.urlStep, pScheme, onVar, readU8]
+theorem ustep_scheme (dev : Bool) (a : UrlAcc) (i : RvInstr) :
+    (urlStep dev a i).scheme = (pScheme i).getD a.scheme := by
+  simp only [urlStep, pScheme, onVar, readU8]
   rv_cases
   all_goals simp [applyProto_scheme]
 
-theorem ustep_port (dev : Bool) (a : Repaired.UrlAcc) (i : RvInstr) :
-    (Repaired.urlStep dev a i).port = orElse (pPort dev i) a.port := by
-  simp only [Repaired.urlStep, pPort, onVar, readU16, roleRow]
+theorem ustep_port (dev : Bool) (a : UrlAcc) (i : RvInstr) :
+    (urlStep dev a i).port = orElse (pPort dev i) a.port := by
+  simp only [urlStep, pPort, onVar, readU16, roleRow]
   cases dev <;> rv_cases
   all_goals simp_all [(applyProto_other _ _).1, orElse]
 
-theorem ustep_dns (dev : Bool) (a : Repaired.UrlAcc) (i : RvInstr) :
-    (Repaired.urlStep dev a i).dns = (pDns i).getD a.dns := by
-  simp only [Repaired.urlStep, pDns, onVar, readText]
+theorem ustep_dns (dev : Bool) (a : UrlAcc) (i : RvInstr) :
+    (urlStep dev a i).dns = (pDns i).getD a.dns := by
+  simp only [urlStep, pDns, onVar, readText]
   rv_cases
   all_goals simp_all [(applyProto_other _ _).2.1]
 
-theorem ustep_ip (dev : Bool) (a : Repaired.UrlAcc) (i : RvInstr) :
-    (Repaired.urlStep dev a i).ip = (pIp i).getD a.ip := by
-  simp only [Repaired.urlStep, pIp, onVar, readAddr]
+theorem ustep_ip (dev : Bool) (a : UrlAcc) (i : RvInstr) :
+    (urlStep dev a i).ip = (pIp i).getD a.ip := by
+  simp only [urlStep, pIp, onVar, readAddr]
   rv_cases
   all_goals simp_all [(applyProto_other _ _).2.2]
 
-theorem ustep_dflt (dev : Bool) (a : Repaired.UrlAcc) (i : RvInstr) (h : a.dflt = defaultPort a.scheme) :
-    (Repaired.urlStep dev a i).dflt = defaultPort (Repaired.urlStep dev a i).scheme := by
-  simp only [Repaired.urlStep]
+theorem ustep_dflt (dev : Bool) (a : UrlAcc) (i : RvInstr) (h : a.dflt = defaultPort a.scheme) :
+    (urlStep dev a i).dflt = defaultPort (urlStep dev a i).scheme := by
+  simp only [urlStep]
   rv_cases
   all_goals exact applyProto_dflt _ _ h
 
-theorem foldl_dflt (dev : Bool) (a : Repaired.UrlAcc) (is : List RvInstr) (h : a.dflt = defaultPort a.scheme) :
-    (is.foldl (Repaired.urlStep dev) a).dflt = defaultPort (is.foldl (Repaired.urlStep dev) a).scheme := by
+theorem foldl_dflt (dev : Bool) (a : UrlAcc) (is : List RvInstr) (h : a.dflt = defaultPort a.scheme) :
+    (is.foldl (urlStep dev) a).dflt = defaultPort (is.foldl (urlStep dev) a).scheme := by
   induction is generalizing a with
   | nil => exact h
   | cons i is ih => exact ih _ (ustep_dflt dev a i h)
 
 /-- `parseURLs` returns what the tables prescribe. -/
 theorem parseURLs_eq_spec (dev : Bool) (is : List RvInstr) :
-    Repaired.parseURLs dev is = specURLs dev is := by
-  unfold Repaired.parseURLs Repaired.assemble specURLs urlsOf lookups
-  have hd := foldl_dflt dev Repaired.UrlAcc.init is rfl
+    parseURLs dev is = specURLs dev is := by
+  unfold parseURLs assemble specURLs urlsOf lookups
+  have hd := foldl_dflt dev UrlAcc.init is rfl
   rw [hd,
-    foldl_field (Repaired.urlStep dev) (·.scheme) pScheme (ustep_scheme dev),
-    foldl_field_opt (Repaired.urlStep dev) (·.port) (pPort dev) (ustep_port dev),
-    foldl_field (Repaired.urlStep dev) (·.dns) pDns (ustep_dns dev),
-    foldl_field (Repaired.urlStep dev) (·.ip) pIp (ustep_ip dev)]
-  simp only [Repaired.UrlAcc.init, defaultScheme, orElse_none_right]
+    foldl_field (urlStep dev) (·.scheme) pScheme (ustep_scheme dev),
+    foldl_field_opt (urlStep dev) (·.port) (pPort dev) (ustep_port dev),
+    foldl_field (urlStep dev) (·.dns) pDns (ustep_dns dev),
+    foldl_field (urlStep dev) (·.ip) pIp (ustep_ip dev)]
+  simp only [UrlAcc.init, defaultScheme, orElse_none_right]
   cases lastValid (pPort dev) is <;> simp [orElse]
 
-/-- The repaired `parseDirective` is the reference interpreter. -/
-theorem repaired_eq_spec (dev : Bool) (is : List RvInstr) :
-    Repaired.parseDirective dev is = specDirective dev is := by
-  unfold Repaired.parseDirective specDirective
+/-- `parseDirective` is the reference interpreter. -/
+theorem parseDirective_eq_spec (dev : Bool) (is : List RvInstr) :
+    parseDirective dev is = specDirective dev is := by
+  unfold parseDirective specDirective
   rw [dirLoop_eq]
   split
   · rfl
@@ -603,420 +589,5 @@ theorem spec_url_port (dev : Bool) (is : List RvInstr) (u : Url) (h : u ∈ spec
     · simp at h; subst h; simp [hp]
     · cases h
 
-
-/-! ## The current code behaves like the repaired code outside the four defect classes -/
-
-/-- Instructions on which the current code is known to deviate from the repaired code:
-empty `RVExtRV` value (panic), `RVDns` value that is stored although `Unmarshal` fails,
-`RVIPAddress` value that fails to decode (target reset / partially filled), `RVDelaysec`
-outside uint32 (negative or overflowing delay). -/
-def cleanInstr (i : RvInstr) : Bool :=
-  if i.var = rvExtRV then !i.value.isEmpty
-  else if i.var = rvDns then ((unmarshalStr i.value).ok || (unmarshalStr i.value).stored.isNone)
-  else if i.var = rvIPAddress then (unmarshalBytes i.value).ok
-  else if i.var = rvDelaysec then
-    match (unmarshalInt64 i.value).val with
-    | some s => decide (0 ≤ s ∧ s ≤ 4294967295)
-    | none => true
-  else true
-
-/-- Number of `RVProtocol` instructions that select a scheme. -/
-def protoCount : List RvInstr → Nat
-  | [] => 0
-  | i :: is => (if (pScheme i).isSome then 1 else 0) + protoCount is
-
-/-- The guard of the `…_partial` theorems. -/
-def clean (is : List RvInstr) : Bool := is.all cleanInstr && decide (protoCount is ≤ 1)
-
-theorem wrapInt64_small (s : Int) (h0 : 0 ≤ s) (h1 : s ≤ 4294967295) :
-    wrapInt64 (s * 1000000000) = s * 1000000000 := by
-  unfold wrapInt64; omega
-
-theorem int64_u32_some (v : Bytes) (s : Int) (h : (unmarshalInt64 v).val = some s) (h0 : 0 ≤ s) (h1 : s ≤ 4294967295) :
-    (unmarshalUint 4294967295 v).val = some s.toNat := by
-  unfold unmarshalInt64 unmarshalUint decInt64 decUint at *
-  cases hd : decHead v with
-  | none => simp [hd, finish, Dec.val] at h
-  | some q =>
-    obtain ⟨mt, ai, arg, r⟩ := q
-    simp only [hd] at h ⊢
-    by_cases hc : mt = 0 ∨ (mt = 7 ∧ ai < 20)
-    · simp only [hc, if_true] at h ⊢
-      by_cases ha : arg ≤ 9223372036854775807
-      · simp only [ha, if_true, finish, Dec.val] at h
-        split at h
-        · injection h with h; subst h
-          have : arg ≤ 4294967295 := by omega
-          simp_all [finish, Dec.val]
-        · cases h
-      · simp [ha, finish, Dec.val] at h
-    · simp only [hc, if_false] at h
-      by_cases h1' : mt = 1
-      · simp only [h1', if_true] at h
-        by_cases ha : arg ≤ 9223372036854775807
-        · simp only [ha, if_true, finish, Dec.val] at h
-          split at h
-          · injection h with h; omega
-          · cases h
-        · simp [ha, finish, Dec.val] at h
-      · simp [h1', finish, Dec.val] at h
-
-theorem int64_u32_none (v : Bytes) (h : (unmarshalInt64 v).val = none) :
-    (unmarshalUint 4294967295 v).val = none := by
-  unfold unmarshalInt64 unmarshalUint decInt64 decUint at *
-  cases hd : decHead v with
-  | none => simp [finish, Dec.val]
-  | some q =>
-    obtain ⟨mt, ai, arg, r⟩ := q
-    simp only [hd] at h ⊢
-    by_cases hc : mt = 0 ∨ (mt = 7 ∧ ai < 20)
-    · simp only [hc, if_true] at h ⊢
-      by_cases ha : arg ≤ 4294967295
-      · have : arg ≤ 9223372036854775807 := by omega
-        simp_all [finish, Dec.val]
-      · simp [ha, finish, Dec.val]
-    · simp [hc, finish, Dec.val]
-
-theorem delay_step (v : Bytes) (d : Directive)
-    (hc : (match (unmarshalInt64 v).val with
-      | some s => decide (0 ≤ s ∧ s ≤ 4294967295)
-      | none => true) = true) :
-    (match (unmarshalInt64 v).val with
-      | some s => Step.cont { d with delay := wrapInt64 (s * 1000000000) }
-      | none => Step.cont d) =
-    (match (unmarshalUint 4294967295 v).val with
-      | some s => Step.cont { d with delay := (s : Int) * 1000000000 }
-      | none => Step.cont d) := by
-  cases hv : (unmarshalInt64 v).val with
-  | none => simp [int64_u32_none v hv]
-  | some s =>
-    simp only [hv, decide_eq_true_eq] at hc
-    rw [int64_u32_some v s hv hc.1 hc.2]
-    simp only [wrapInt64_small s hc.1 hc.2]
-    congr 2
-    omega
-
-def stepOfOpt : Option Directive → Step
-  | some d => .cont d
-  | none => .drop
-
-theorem arrayShift_no_panic (v : Bytes) : Repaired.arrayShift v ≠ .panic := by
-  unfold Repaired.arrayShift
-  (repeat' split) <;> simp
-
-theorem dirStep_clean (dev : Bool) (d : Directive) (i : RvInstr) (hc : cleanInstr i = true) :
-    Rv.dirStep dev d i = stepOfOpt (Repaired.dirStep dev d i) := by
-  unfold cleanInstr at hc
-  by_cases h15 : i.var = rvExtRV
-  · simp only [h15, if_true, Bool.not_eq_true', List.isEmpty_eq_false_iff] at hc
-    have e : Rv.dirStep dev d i = (match Rv.arrayShift i.value with
-        | .panic => .panic panicArrayShift
-        | .fail => .cont d
-        | .ok first rest => .cont (Rv.applyExt first rest d)) := by
-      simp only [Rv.dirStep]; rv_cases
-    have e' : Repaired.dirStep dev d i = (match Repaired.arrayShift i.value with
-        | .ok first rest => some (Repaired.applyExt first rest d)
-        | _ => some d) := by
-      simp only [Repaired.dirStep]; rv_cases
-    rw [e, e', arrayShift_eq _ hc]
-    cases hs : Repaired.arrayShift i.value with
-    | panic => exact absurd hs (arrayShift_no_panic _)
-    | fail => rfl
-    | ok f r => rfl
-  · by_cases h13 : i.var = rvDelaysec
-    · have hd : rvDelaysec ≠ rvExtRV ∧ rvDelaysec ≠ rvDns ∧ rvDelaysec ≠ rvIPAddress := by decide
-      simp only [h13, hd.1, hd.2.1, hd.2.2, if_false, if_true] at hc
-      have e : Rv.dirStep dev d i = (match (unmarshalInt64 i.value).val with
-          | some s => Step.cont { d with delay := wrapInt64 (s * 1000000000) }
-          | none => Step.cont d) := by
-        simp only [Rv.dirStep]; rv_cases
-      have e' : Repaired.dirStep dev d i = (match (unmarshalUint 4294967295 i.value).val with
-          | some s => some { d with delay := (s : Int) * 1000000000 }
-          | none => some d) := by
-        simp only [Repaired.dirStep]; rv_cases
-      rw [e, e', delay_step _ _ hc]
-      cases (unmarshalUint 4294967295 i.value).val <;> rfl
-    · simp only [Rv.dirStep, Repaired.dirStep]
-      (repeat' split) <;> simp_all [stepOfOpt]
-
-theorem dirLoop_clean (dev : Bool) (d : Directive) (is : List RvInstr) (hc : is.all cleanInstr = true) :
-    Rv.dirLoop dev d is = Repaired.dirLoop dev d is := by
-  induction is generalizing d with
-  | nil => rfl
-  | cons i is ih =>
-    simp only [List.all_cons, Bool.and_eq_true] at hc
-    simp only [Rv.dirLoop, Repaired.dirLoop, dirStep_clean dev d i hc.1]
-    cases Repaired.dirStep dev d i with
-    | none => rfl
-    | some d' => exact ih d' hc.2
-
-/-! ### URLs of the current code -/
-
-/-- Loop variables of the current `parseURLs` vs the repaired one. -/
-def UrlRel (c : Rv.UrlAcc) (r : Repaired.UrlAcc) : Prop :=
-  c.scheme = r.scheme ∧ c.dns = r.dns ∧ c.ip = r.ip ∧ c.port = orElse r.port r.dflt
-
-theorem applyProto_rel (p : Nat) (c : Rv.UrlAcc) (r : Repaired.UrlAcc) (h : UrlRel c r)
-    (hd : (schemeOfProto p).isSome → r.dflt = none) :
-    UrlRel (Rv.applyProto p c) (Repaired.applyProto p r) := by
-  obtain ⟨h1, h2, h3, h4⟩ := h
-  unfold UrlRel Rv.applyProto Repaired.applyProto
-  unfold schemeOfProto protoTable at hd
-  simp only [List.lookup] at hd
-  by_cases p1 : p = rvProtHTTP
-  · have := hd (by simp [p1, rvProtHTTP]); cases hp : r.port <;> simp_all [orElse, orDefault]
-  by_cases p2 : p = rvProtHTTPS
-  · have := hd (by simp [p2, rvProtHTTPS]); cases hp : r.port <;> simp_all [orElse, orDefault, rvProtHTTP, rvProtHTTPS]
-  by_cases p3 : p = rvProtTCP
-  · have := hd (by simp [p3, rvProtTCP]); cases hp : r.port <;> simp_all [orElse, orDefault, rvProtHTTP, rvProtHTTPS, rvProtTCP]
-  by_cases p4 : p = rvProtTLS
-  · have := hd (by simp [p4, rvProtTLS]); cases hp : r.port <;> simp_all [orElse, orDefault, rvProtHTTP, rvProtHTTPS, rvProtTCP, rvProtTLS]
-  by_cases p5 : p = rvProtCoapTCP
-  · have := hd (by simp [p5, rvProtCoapTCP]); cases hp : r.port <;> simp_all [orElse, orDefault, rvProtHTTP, rvProtHTTPS, rvProtTCP, rvProtTLS, rvProtCoapTCP]
-  by_cases p6 : p = rvProtCoapUDP
-  · have := hd (by simp [p6, rvProtCoapUDP]); cases hp : r.port <;> simp_all [orElse, orDefault, rvProtHTTP, rvProtHTTPS, rvProtTCP, rvProtTLS, rvProtCoapTCP, rvProtCoapUDP]
-  · simp_all
-
-theorem urlStep_rel (dev : Bool) (c : Rv.UrlAcc) (r : Repaired.UrlAcc) (i : RvInstr) (h : UrlRel c r)
-    (hc : cleanInstr i = true) (hd : (pScheme i).isSome → r.dflt = none) :
-    UrlRel (Rv.urlStep dev c i) (Repaired.urlStep dev r i) := by
-  unfold cleanInstr at hc
-  unfold Rv.urlStep Repaired.urlStep
-  by_cases h12 : i.var = rvProtocol
-  · simp only [h12, if_true]
-    cases hv : (unmarshalUint 255 i.value).val with
-    | none => exact h
-    | some p =>
-      apply applyProto_rel p c r h
-      intro hs
-      apply hd
-      simp only [pScheme, onVar, readU8]
-      simp only [rvProtocol] at h12
-      simp [h12, hv, hs]
-  · simp only [h12, if_false]
-    by_cases hp : i.var = rvDevPort ∨ i.var = rvOwnerPort
-    · simp only [hp, if_true]
-      split
-      · exact h
-      · cases (unmarshalUint 65535 i.value).val with
-        | none => exact h
-        | some p => obtain ⟨h1, h2, h3, h4⟩ := h; exact ⟨h1, h2, h3, by simp [orElse]⟩
-    · simp only [hp, if_false]
-      by_cases h5 : i.var = rvDns
-      · have hne : rvDns ≠ rvExtRV := by decide
-        simp only [h5, hne, if_true, if_false, Bool.or_eq_true, Option.isNone_iff_eq_none] at hc
-        simp only [h5, if_true, Dec.val]
-        obtain ⟨h1, h2, h3, h4⟩ := h
-        cases hu : unmarshalStr i.value with
-        | mk st ok =>
-          simp only [hu] at hc ⊢
-          cases st with
-          | none => cases ok <;> exact ⟨h1, h2, h3, h4⟩
-          | some s =>
-            have hok : ok = true := by
-              rcases hc with hc | hc
-              · exact hc
-              · cases hc
-            subst hok
-            exact ⟨h1, rfl, h3, h4⟩
-      · simp only [h5, if_false]
-        by_cases h2' : i.var = rvIPAddress
-        · have hne : rvIPAddress ≠ rvExtRV ∧ rvIPAddress ≠ rvDns := by decide
-          simp only [h2', hne.1, hne.2, if_true, if_false] at hc
-          simp only [h2', if_true, Dec.val, hc]
-          obtain ⟨h1, h2, h3, h4⟩ := h
-          cases (unmarshalBytes i.value).stored with
-          | none => exact ⟨h1, h2, h3, h4⟩
-          | some s => exact ⟨h1, h2, rfl, h4⟩
-        · simp only [h2', if_false]; exact h
-
-theorem urlStep_dflt (dev : Bool) (r : Repaired.UrlAcc) (i : RvInstr) (h : (pScheme i).isSome = false) :
-    (Repaired.urlStep dev r i).dflt = r.dflt := by
-  simp only [pScheme, onVar, readU8] at h
-  unfold Repaired.urlStep
-  by_cases h12 : i.var = rvProtocol
-  · simp only [h12, if_true]
-    simp only [rvProtocol] at h12
-    simp only [h12, if_true] at h
-    cases hv : (unmarshalUint 255 i.value).val with
-    | none => rfl
-    | some p =>
-      simp only [hv, Option.bind_some] at h
-      unfold schemeOfProto protoTable at h
-      simp only [List.lookup] at h
-      unfold Repaired.applyProto
-      (repeat' split) <;> simp_all [rvProtHTTP, rvProtHTTPS, rvProtTCP, rvProtTLS, rvProtCoapTCP, rvProtCoapUDP]
-  · simp only [h12, if_false]
-    (repeat' split) <;> rfl
-
-theorem foldl_rel (dev : Bool) (is : List RvInstr) (c : Rv.UrlAcc) (r : Repaired.UrlAcc) (h : UrlRel c r)
-    (hc : is.all cleanInstr = true) (hn : protoCount is = 0 ∨ (protoCount is ≤ 1 ∧ r.dflt = none)) :
-    UrlRel (is.foldl (Rv.urlStep dev) c) (is.foldl (Repaired.urlStep dev) r) := by
-  induction is generalizing c r with
-  | nil => exact h
-  | cons i is ih =>
-    simp only [List.all_cons, Bool.and_eq_true] at hc
-    simp only [List.foldl_cons]
-    simp only [protoCount] at hn
-    by_cases hp : (pScheme i).isSome = true
-    · simp only [hp, if_true] at hn
-      have hd : r.dflt = none := by
-        rcases hn with hn | hn
-        · omega
-        · exact hn.2
-      have h0 : protoCount is = 0 := by rcases hn with hn | hn <;> omega
-      exact ih _ _ (urlStep_rel dev c r i h hc.1 (fun _ => hd)) hc.2 (Or.inl h0)
-    · have hp' : (pScheme i).isSome = false := by simpa using hp
-      simp only [hp', Bool.false_eq_true, if_false, Nat.zero_add] at hn
-      refine ih _ _ (urlStep_rel dev c r i h hc.1 (fun hs => absurd hs hp)) hc.2 ?_
-      rw [urlStep_dflt dev r i hp']
-      exact hn
-
-theorem parseURLs_clean (dev : Bool) (is : List RvInstr) (hc : clean is = true) :
-    Rv.parseURLs dev is = Repaired.parseURLs dev is := by
-  simp only [clean, Bool.and_eq_true, decide_eq_true_eq] at hc
-  have h := foldl_rel dev is Rv.UrlAcc.init Repaired.UrlAcc.init ⟨rfl, rfl, rfl, rfl⟩ hc.1 (Or.inr ⟨hc.2, rfl⟩)
-  obtain ⟨h1, h2, h3, h4⟩ := h
-  unfold Rv.parseURLs Repaired.parseURLs Rv.assemble Repaired.assemble
-  rw [h1, h2, h3, h4]
-  cases (is.foldl (Repaired.urlStep dev) Repaired.UrlAcc.init).port <;> rfl
-
-/-- Outside the defect classes the current `parseDirective` is the repaired one. -/
-theorem current_eq_repaired (dev : Bool) (is : List RvInstr) (hc : clean is = true) :
-    Rv.parseDirective dev is = Repaired.parseDirective dev is := by
-  unfold Rv.parseDirective Repaired.parseDirective
-  rw [parseURLs_clean dev is hc]
-  simp only [clean, Bool.and_eq_true] at hc
-  exact dirLoop_clean dev _ is hc.1
-
-
-/-! ### Facts about the current code that need no guard or only the no-empty-RVExtRV guard -/
-
-theorem arrayShift_panic_iff (v : Bytes) : Rv.arrayShift v = .panic ↔ v = [] := by
-  cases v with
-  | nil => simp [Rv.arrayShift]
-  | cons b r =>
-    have : Rv.arrayShift (b :: r) = Repaired.arrayShift (b :: r) := arrayShift_eq _ (by simp)
-    simp [this, arrayShift_no_panic]
-
-theorem dirStep_panic (dev : Bool) (d : Directive) (i : RvInstr) (s : String)
-    (h : Rv.dirStep dev d i = .panic s) : i.var = rvExtRV ∧ i.value = [] := by
-  by_cases h15 : i.var = rvExtRV
-  · refine ⟨h15, ?_⟩
-    have e : Rv.dirStep dev d i = (match Rv.arrayShift i.value with
-        | .panic => .panic panicArrayShift
-        | .fail => .cont d
-        | .ok first rest => .cont (Rv.applyExt first rest d)) := by
-      simp only [Rv.dirStep]; rv_cases
-    rw [e] at h
-    cases hs : Rv.arrayShift i.value with
-    | panic => exact (arrayShift_panic_iff _).mp hs
-    | fail => simp [hs] at h
-    | ok f r => simp [hs] at h
-  · exfalso
-    simp only [Rv.dirStep] at h
-    (repeat' split at h) <;> simp_all
-
-theorem dirStep_marker (dev : Bool) (d : Directive) (i : RvInstr) (h : i.var = (roleRow dev).otherOnlyVar) :
-    Rv.dirStep dev d i = .drop := by
-  simp only [roleRow] at h
-  simp only [Rv.dirStep]
-  cases dev <;> simp_all [rvDevOnly, rvOwnerOnly]
-
-/-- Without an empty `RVExtRV` value the loop never panics. -/
-theorem dirLoop_no_panic (dev : Bool) (d : Directive) (is : List RvInstr)
-    (h : ∀ i ∈ is, i.var = rvExtRV → i.value ≠ []) (s : String) : Rv.dirLoop dev d is ≠ .panic s := by
-  induction is generalizing d with
-  | nil => simp [Rv.dirLoop]
-  | cons i is ih =>
-    simp only [Rv.dirLoop]
-    cases hs : Rv.dirStep dev d i with
-    | cont d' => exact ih d' (fun j hj => h j (List.mem_cons_of_mem _ hj))
-    | drop => simp
-    | panic s' =>
-      have := dirStep_panic dev d i s' hs
-      exact absurd this.2 (h i (List.mem_cons_self ..) this.1)
-
-/-- Without an empty `RVExtRV` value a marker of the other role drops the directive. -/
-theorem dirLoop_marker (dev : Bool) (d : Directive) (is : List RvInstr)
-    (h : ∀ i ∈ is, i.var = rvExtRV → i.value ≠ [])
-    (hm : ∃ i ∈ is, i.var = (roleRow dev).otherOnlyVar) : Rv.dirLoop dev d is = .dropped := by
-  induction is generalizing d with
-  | nil => obtain ⟨i, hi, _⟩ := hm; cases hi
-  | cons i is ih =>
-    simp only [Rv.dirLoop]
-    by_cases hi : i.var = (roleRow dev).otherOnlyVar
-    · simp [dirStep_marker dev d i hi]
-    · cases hs : Rv.dirStep dev d i with
-      | cont d' =>
-        apply ih d' (fun j hj => h j (List.mem_cons_of_mem _ hj))
-        obtain ⟨j, hj, hv⟩ := hm
-        rcases List.mem_cons.mp hj with rfl | hj
-        · exact absurd hv hi
-        · exact ⟨j, hj, hv⟩
-      | drop => rfl
-      | panic s' =>
-        have := dirStep_panic dev d i s' hs
-        exact absurd this.2 (h i (List.mem_cons_self ..) this.1)
-
-theorem all_perm {l l' : List RvInstr} (f : RvInstr → Bool) (h : l.Perm l') : l.all f = l'.all f := by
-  rw [Bool.eq_iff_iff]
-  simp only [List.all_eq_true]
-  constructor
-  · intro hx x hm; exact hx x (h.mem_iff.mpr hm)
-  · intro hx x hm; exact hx x (h.mem_iff.mp hm)
-
-theorem protoCount_perm {l l' : List RvInstr} (h : l.Perm l') : protoCount l = protoCount l' := by
-  induction h with
-  | nil => rfl
-  | cons x _ ih => simp only [protoCount, ih]
-  | swap x y l => simp only [protoCount]; omega
-  | trans _ _ ih1 ih2 => rw [ih1, ih2]
-
-theorem clean_perm {l l' : List RvInstr} (h : l.Perm l') : clean l = clean l' := by
-  unfold clean
-  rw [all_perm _ h, protoCount_perm h]
-
-theorem protoCount_append (a b : List RvInstr) : protoCount (a ++ b) = protoCount a + protoCount b := by
-  induction a with
-  | nil => simp [protoCount]
-  | cons i a ih => simp only [List.cons_append, protoCount, ih]; omega
-
-theorem clean_remove (l1 l2 : List RvInstr) (i : RvInstr) (h : clean (l1 ++ i :: l2) = true) :
-    clean (l1 ++ l2) = true := by
-  simp only [clean, Bool.and_eq_true, decide_eq_true_eq, List.all_append, List.all_cons, protoCount_append, protoCount] at h ⊢
-  refine ⟨⟨h.1.1, h.1.2.2⟩, ?_⟩
-  have := h.2
-  omega
-
-/-- The other role's port variable is never looked at (current code, no guard). -/
-theorem urlStep_other_port (dev : Bool) (a : Rv.UrlAcc) (i : RvInstr) (h : i.var = (roleRow (!dev)).portVar) :
-    Rv.urlStep dev a i = a := by
-  simp only [roleRow] at h
-  unfold Rv.urlStep
-  cases dev <;> simp_all [rvProtocol, rvDevPort, rvOwnerPort]
-
-theorem dirStep_other_port (dev : Bool) (d : Directive) (i : RvInstr) (h : i.var = (roleRow (!dev)).portVar) :
-    Rv.dirStep dev d i = .cont d := by
-  simp only [roleRow] at h
-  unfold Rv.dirStep
-  cases dev <;> simp_all [rvDevOnly, rvOwnerOnly, rvBypass, rvMedium, rvWifiSsid, rvWifiPw, rvExtRV, rvDelaysec, rvSvCertHash, rvClCertHash]
-
-theorem dirLoop_remove (dev : Bool) (d : Directive) (l1 l2 : List RvInstr) (i : RvInstr)
-    (h : ∀ d, Rv.dirStep dev d i = .cont d) : Rv.dirLoop dev d (l1 ++ i :: l2) = Rv.dirLoop dev d (l1 ++ l2) := by
-  induction l1 generalizing d with
-  | nil => simp [Rv.dirLoop, h]
-  | cons j l1 ih =>
-    simp only [List.cons_append, Rv.dirLoop]
-    cases Rv.dirStep dev d j with
-    | cont d' => exact ih d'
-    | drop => rfl
-    | panic s => rfl
-
-theorem parse_other_port (dev : Bool) (l1 l2 : List RvInstr) (i : RvInstr) (h : i.var = (roleRow (!dev)).portVar) :
-    Rv.parseDirective dev (l1 ++ i :: l2) = Rv.parseDirective dev (l1 ++ l2) := by
-  unfold Rv.parseDirective Rv.parseURLs
-  rw [List.foldl_append, List.foldl_cons, urlStep_other_port dev _ i h, ← List.foldl_append]
-  exact dirLoop_remove dev _ l1 l2 i (fun d => dirStep_other_port dev d i h)
 
 end Fdo.RvProofs
